@@ -164,7 +164,7 @@ Definition dispatch (op : string) (args : list tok) : option (outcome (list tok)
   else if String.eqb op "pwhash.verify" then
     match args with
     | [TB stored; TB salt; TI hl; TB ops; TB mem; TI alg; TB pw] =>
-        Some (omap (fun _ : unit => []) (Argon2Impl.verify stored salt (Z.to_nat hl) (le_val ops) (le_val mem) alg pw))
+        Some (omap (fun _ : unit => []) (Argon2Impl.verify stored salt hl (le_val ops) (le_val mem) alg pw))
     | _ => None end
   else if String.eqb op "pwhash.from_string" then
     match args with
